@@ -655,6 +655,9 @@ def check_pointwise(case, rec):
             # curvature of S at 0 in units of len: second moment of rho; 1e3 covers
             # Matern nu=0.2 (8.5), the TPL models and the end point exponent of JBessel
             tol = (1e3 * x * x + 1e-9) * S0_or + 10 * e0
+            if 0.0 < c.len_low < 1e-3 * float(case["spec"]["len_scale"]):
+                # the oracle's quadrature of rho cannot resolve a cut-off scale that small (same allowance as for S(k) above)
+                tol += 1e-6 * S0_or
             kind = "integral_small_k_underflow" if un else tags.get("kind", "origin_continuity")
             require(
                 bool(np.isfinite(s)) and abs(float(s) - S0_or) <= tol,
